@@ -451,7 +451,24 @@ func c14Transport(c *Ctx, r *Rng) {
 		marker.Id = 0x3FFF
 		mb, _ := marker.Pack()
 		send := func(b []byte) {
-			conn.Write(append(putUint(nil, 2, uint64(len(b))), b...))
+			frame := append(putUint(nil, 2, uint64(len(b))), b...)
+			switch i % 4 {
+			case 1: // the two octets of the length in separate segments
+				conn.Write(frame[:1])
+				conn.Write(frame[1:])
+			case 2: // the length alone, then the message
+				conn.Write(frame[:2])
+				conn.Write(frame[2:])
+			case 3: // one octet at a time up to the fourth
+				for k := 0; k < 3 && k < len(frame); k++ {
+					conn.Write(frame[k : k+1])
+				}
+				if len(frame) > 3 {
+					conn.Write(frame[3:])
+				}
+			default:
+				conn.Write(frame)
+			}
 		}
 		go func() { send(p); send(mb) }()
 		var replies [][]byte
